@@ -1,16 +1,18 @@
 #!/venv/bin/python
-"""seed_store.py <ID> — copy the confirmed seeded changes of /tmp/seed/<ID>/_seed/{1,2} into /verif/seeded/<ID>-<n>/."""
+"""seed_store.py <ID> [root] [offset] — copy the confirmed seeded changes of /tmp/seed/<ID>/_seed/{1,2} into /verif/seeded/<ID>-<n>/."""
 import json, os, shutil, sys
 pid = sys.argv[1]
+root = sys.argv[2] if len(sys.argv) > 2 else "/tmp/seed"
+offset = int(sys.argv[3]) if len(sys.argv) > 3 else 0          # second round: seeded/<ID>-3, ...
 for n in (1, 2):
-    cf = f"/tmp/seed/{pid}.confirm{n}.json"
-    sd = f"/tmp/seed/{pid}/_seed/{n}"
+    cf = f"{root}/{pid}.confirm{n}.json"
+    sd = f"{root}/{pid}/_seed/{n}"
     if not os.path.exists(cf) or not os.path.getsize(cf):
         print(pid, n, "no confirmation"); continue
     c = json.load(open(cf))
     if not c.get("confirmed"):
         print(pid, n, "NOT confirmed", {k: c.get(k) for k in ("demo_clean_rc", "demo_changed_rc", "suite_ok", "suite_missing")}); continue
-    dst = f"/verif/seeded/{pid}-{n}"
+    dst = f"/verif/seeded/{pid}-{n + offset}"
     os.makedirs(dst, exist_ok=True)
     for f in ("patch.diff", "demo.py", "notes.md"):
         if os.path.exists(f"{sd}/{f}"):
